@@ -35,10 +35,15 @@ def run(ctx):
             if tgt[0] == "field" and tgt[2] == L.SOFT:
                 writers.append((f, b, i, tgt, rv))
     for f, b, i, tgt, rv in writers:
-        look = [c for c in root_calls(tgt) if dashmap_call({"rpath": c[1], "gargs": ["K", "StoredValue"]}) and "get_mut" in c[1]]
+        look = [c for c in root_calls(tgt) if dashmap_call({"rpath": c[1], "gargs": ["K", "StoredValue"]})]
+        meth = dashmap_call({"rpath": look[0][1], "gargs": ["K", "StoredValue"]})[0] if look else None
         ok = const_of(rv) == 1 and bool(look) and look[0][2][1][0] == "param"
         ctx.check(ok, "R04.2", "%s|hide-writes-true-on-looked-up-entry" % f.name,
                   "the soft-delete flag is set to true on the entry found under the function's key parameter (exclusive entry guard)", f.where(b, i), "%s = %s" % (fmt(tgt), fmt(rv)))
+        ctx.check(meth == "get_mut", "R04.2", "%s|hide-uses-blocking-lookup" % f.name,
+                  "the hide must wait for the entry (DashMap::get_mut): a try_* lookup reports Locked while any reader holds the shard and would silently skip the hide, leaving the deleted value readable after delete() returned",
+                  f.where(b, i), "lookup method: %s" % meth)
+        ok = ok and meth == "get_mut"
         if ok:
             hide[f.name] = look[0][2][1][1]
     ctx.floor("R04.2", "functions setting the soft-delete flag", len(hide), 1)
